@@ -10,7 +10,7 @@ G  : NodeImport_Gen enumerates (world, call sequence) scenarios of that model; t
      the concrete block recipe per failure class (seeded).
 X  : harness/nodeimport (in-package internal/fuzz) builds real, correctly sealed blocks on a
      synthetic genesis (VRF stand-in) and runs FuzzServiceStub.SetState/ImportBlock/GetState:
-     run A, run B without the calls A rejected, run C = A on another fresh node.
+     run A, runs B1.. each without the first call its predecessor rejected, run C = A again.
 V  : NodeImport_Trace: the recorded answers must be a function of (accepted imports, request)."""
 import concurrent.futures as cf
 import json
